@@ -292,6 +292,19 @@ class VECTOR_BLF_EXPORT File final {
      */
     static ObjectHeaderBase * createObject(ObjectType type);
 
+#ifdef VECTOR_BLF_VERIF
+    /**
+     * verification hook: set the capacity of the object queue and of the uncompressed buffer,
+     * which are otherwise fixed in the constructor (10 objects / one default log container).
+     */
+    void verifSetLimits(uint32_t queueCapacity, std::streamsize bufferBytes);
+
+    /**
+     * verification hook: number of log containers / bytes currently held by the uncompressed stage.
+     */
+    void verifHeld(size_t & containers, size_t & bytes) const;
+#endif
+
   private:
     /**
      * Open mode
